@@ -7,6 +7,8 @@ import (
 	"fmt"
 	"os"
 	"testing"
+
+	"verif.local/simrt"
 )
 
 var (
@@ -141,6 +143,13 @@ func runOne(t *testing.T, def propDef, plan *Plan, trace bool) *RunResult {
 	res := RunPlan(t, plan, RunOpts{KeepTrace: trace, Oracles: def.Oracles, Setup: def.Setup})
 	if def.Twin != nil && res.Panic == "" {
 		def.Twin(t, plan, res)
+	}
+	if plan.Prop == "C26" {
+		if !simrt.RaceMode {
+			res.Violations = append(res.Violations, Violation{Prop: "HARNESS", Assertion: "not_a_race_build", Detail: "C26 plans are judged by the race detector and must run on the -race build of the engine"})
+		}
+		res.Violations = append(res.Violations, raceViolations("C26")...)
+		res.Nontrivial = res.Probes["concurrent_step"] > 0
 	}
 	// keep only violations of the property under test (plus harness/wire ones it owns)
 	var keep []Violation
